@@ -330,24 +330,48 @@ Example C16_source_render_rows_example :
   Ok (PList [PList [enc_s [55]; enc_s [45]]; PList [enc_s []; enc_s []]]).
 Proof. vm_compute. reflexivity. Qed.
 
-(* ---- render_csv (PARTIAL).  Intended full statement, not yet proved:
-     running render_csv_fn on (columns desc, rows, dcontext, file content f0, expand, nullvalue) leaves in `writer`
-     csv_writer (f0 ++ flat_map csv_record (csv_records o desc rows))   [= f0 ++ the text of Render.render_csv].
-   Proved below: the body of its priming loop `for row in rows:` (selected from the translated render_csv), for every
-   list of renderers with their histories and every row: exactly the renderers zipped with a non-NULL cell have that
-   cell appended to what update() has seen (upd), order and length of the list unchanged.  Missing for the full
-   statement: the induction over rows up to Render.column / col_states, the prepare() comprehension and the three writer
-   statements (the call of render_rows is C16_source_render_rows). *)
-Theorem C16_source_render_csv_prime_row_partial : forall (call_ref : nat -> list pv -> pv) (quant : dec -> str -> dec)
-    (numfmt : list (dec * str) -> dec -> str -> str) (dc : pv) (ex : bool) (nl : str)
+(* ---- render_csv.  First the body of its priming loop `for row in rows:` on its own (for every list of renderers
+   with their histories and every row: exactly the renderers zipped with a non-NULL cell have that cell appended to what
+   update() has seen, order and length of the list unchanged), then the whole function. *)
+Theorem C16_source_render_csv_prime_row : forall (call_ref : nat -> list pv -> pv) (quant : dec -> str -> dec)
+    (numfmt : list (dec * str) -> dec -> str -> str) (dc : pv) (o : opts)
     (tvs : list (dtype * list cellv)) (r : list cellv) (loc : env),
-  lookup "renderers"%string loc = Some (PList (map (rend dc (oc ex nl)) tvs)) ->
+  lookup "renderers"%string loc = Some (PList (map (rend dc o) tvs)) ->
   exists loc',
     PyMini.exec_block call_ref (prims_top quant numfmt)
       (write {| locals := loc; fields := [] |} (TName "row"%string) (enc_rrow r)) csv_loop =
     Ok (Next {| locals := loc'; fields := [] |}) /\
-    lookup "renderers"%string loc' = Some (PList (map (rend dc (oc ex nl)) (upd tvs r))) /\
+    lookup "renderers"%string loc' = Some (PList (map (rend dc o) (upd tvs r))) /\
     (forall x, String.eqb x "$new" = false -> String.eqb x "value" = false -> String.eqb x "renderer" = false ->
                String.eqb x "renderers" = false -> String.eqb x "row" = false -> lookup x loc' = lookup x loc).
 Proof. exact prime_row. Qed.
-Print Assumptions C16_source_render_csv_prime_row_partial.
+Print Assumptions C16_source_render_csv_prime_row.
+
+(* The whole of render_csv: run on the columns, the rows, a file holding f0, expand and nullvalue of the options o,
+   the translated body leaves in `writer` (the csv.writer wrapping the file) f0 followed by the records of
+   Render.csv_records - the header and one record per line of render_rows under the CSV options (spaced = False,
+   listsep = ','), the renderers having seen exactly Render.column of every column (col_states).  That text is
+   Render.render_csv's for well-typed supported tables (render_csv = Some (flat_map csv_record (csv_records ..))).
+   Hypotheses: _get_renderer(datatype, ctx) builds a renderer that has seen nothing; calling render_rows is
+   interpreting its translation (C16_source_render_rows). *)
+Theorem C16_source_render_csv : forall (call_ref : nat -> list pv -> pv) (quant : dec -> str -> dec)
+    (numfmt : list (dec * str) -> dec -> str -> str) (dc : pv) (o : opts),
+  (forall t c, call_ref 0%nat [enc_rdtype t; c] = robj t c []) ->
+  (forall a b c, call_ref 1%nat [a; b; c] =
+                 res_val (call_function call_ref (prims_top quant numfmt) render_rows_fn [a; b; c])) ->
+  forall (desc : list (str * dtype)) (rows : list (list cellv)) (f0 : str),
+  exists s',
+    PyMini.exec_block call_ref (prims_top quant numfmt)
+      {| locals := [("columns", PList (map enc_rcolumn desc)); ("rows", PList (map enc_rrow rows)); ("dcontext", dc);
+                    ("file", enc_s f0); ("expand", PBool (o_expand o)); ("nullvalue", enc_s (o_null o))]%string;
+         fields := [] |} (f_body render_csv_fn) = Ok (Next s') /\
+    lookup "writer"%string (locals s') =
+    Some (csv_writer (f0 ++ flat_map csv_record (csv_records quant numfmt o desc rows))).
+Proof. exact (fun cr q nf dc o => render_csv_src cr q nf dc (o_expand o) (o_null o)). Qed.
+Print Assumptions C16_source_render_csv.
+
+Theorem C16_source_render_csv_refs :
+  nth_error refs 0 = Some (0%nat, "beanquery.query_render._get_renderer"%string) /\
+  nth_error refs 1 = Some (1%nat, "beanquery.query_render.render_rows"%string).
+Proof. exact csv_refs. Qed.
+Print Assumptions C16_source_render_csv_refs.
